@@ -33,6 +33,24 @@ def callables(spec, tier):
     job.args = (10, 20)
     job.keywords = {'a': 5, 'zz': 6}
     out.append(('callable-instance(args attr)', job, h2.CALLS))
+    # a wrapper with its own, wider signature around the function (functools.wraps sets __wrapped__): what binds is the
+    # wrapper's (*args, **kwds), whatever the wrapped function would accept
+    f3 = plain.compile()
+    calls3 = [0]
+
+    def wide(*args, **kwds):
+        calls3[0] += 1
+        return None
+    functools.update_wrapper(wide, f3)
+    out.append(('wraps(*args,**kwds)', wide, calls3))
+    f4 = plain.compile()
+    calls4 = [0]
+
+    def narrow(a):
+        calls4[0] += 1
+        return None
+    functools.update_wrapper(narrow, f4)
+    out.append(('wraps(a)', narrow, calls4))
     # partials: 0-2 positionals x 0-1 keywords
     kwn = (tuple(names) if names else ('a', 'b')) + ('k', 'z')
     for npos in (0, 1, 2):
